@@ -708,6 +708,12 @@ theorem semRel_frag (cfg : Cfg) (o : Orc) (n : Node) (hf : n.kind.orderInsensiti
       exact rel_hom (routeS ps j) rfl (by simp [routeS]) (fun _ _ hp => hp.filter _) hr
   case sink a => exact .sink fun k x y hr => (gather_perm _ x).trans hr.1
 
+theorem projs_valsOf_flatten (k : V) (parts : D) :
+    (parts.map fun p => projs (valsOf k p)).flatten = projs (valsOf k parts.flatten) := by
+  induction parts with
+  | nil => rfl
+  | cons p ps ih => simp only [map_cons, flatten_cons, ih, valsOf_append]; simp [projs]
+
 theorem stRel_init (h : V → Nat) : StRel h ({} : St D) ({} : St (List V)) := ⟨All2.nil, All2.nil⟩
 
 /-- the simulation: on jobs of the fragment the parallel and the sequential run stay related -/
